@@ -163,8 +163,12 @@ func findChangedThrift(r *git.Repository) (*treeChanges, error) {
 		return nil, err
 	}
 	// Diff the trees and find what changed.
+	// Renames are not detected: a deleted file must show up as a deletion even
+	// when the same commit adds another file. (With rename detection and a
+	// zero rename score any deletion is paired with any addition, and the
+	// deleted path is then looked for in HEAD.)
 	objects, _ := object.DiffTreeWithOptions(context.Background(),
-		pc, c, &object.DiffTreeOptions{DetectRenames: true}) // *object.Changes
+		pc, c, &object.DiffTreeOptions{DetectRenames: false}) // *object.Changes
 	var changed []*change
 	for _, o := range objects {
 		a, err := o.Action() // Insert, delete or modify.
